@@ -225,7 +225,7 @@ def hals_objective(G, B, V, l1, l2):
 
 
 # ----------------------------------------------------------------------------- the runs
-BUDGET = {"quick": dict(cp=84, hals=36, ls=32), "thorough": dict(cp=640, hals=300, ls=260)}
+BUDGET = {"quick": dict(cp=84, hals=36, ls=32), "thorough": dict(cp=480, hals=220, ls=200)}
 
 
 class Ctx:
@@ -235,7 +235,7 @@ class Ctx:
         self.cases, self.meta = [], []
         self.skipped_illcond = 0
         self.n_cp, self.n_hals, self.n_ls = 0, 0, 0
-        self.raised, self.judged, self.attempts = {}, {}, {}
+        self.raised, self.judged, self.attempts, self.raised_other = {}, {}, {}, {}
         self.py_blocks = 0
         self.mismatch_notes = 0
 
@@ -274,6 +274,8 @@ def attempt(ctx, entry):
 def raised(ctx, entry, msg):
     """an exception is not a statement about descent: the run is skipped and counted (LinAlgError = singular block system)"""
     ctx.raised[entry] = ctx.raised.get(entry, 0) + 1
+    if not any(t in str(msg) for t in ("LinAlgError", "ingular", "timeout", "converge")):
+        ctx.raised_other[entry] = ctx.raised_other.get(entry, 0) + 1
     ctx.chk.hist("raised", entry + ": " + str(msg)[:60])
 
 
@@ -540,8 +542,9 @@ def run_tucker(ctx, n_runs):
     from tensorly.decomposition import _tucker
     chk, rng = ctx.chk, ctx.rng
     shapes = [(4, 3), (3, 4, 3), (4, 4, 3), (3, 3, 2, 3), (5, 4, 4), (4, 3, 5)]
+    pshapes = [(3, 3, 3), (4, 3, 5), (4, 4, 4), (3, 3, 2, 3), (4, 4, 3)]     # equal mode sizes: a mode/index mix-up stays shape-correct
     for it in range(n_runs):
-        shape = shapes[it % len(shapes)]
+        shape = pshapes[(it // 3) % len(pshapes)] if it % 3 == 2 else shapes[it % len(shapes)]
         nd = len(shape)
         r = np_rng(rng)
         X = lowrank(r, shape, 2, rng.choice([0.1, 0.5])) + 0.3 * r.randn(*shape)
@@ -620,6 +623,67 @@ def run_parafac2(ctx, n_runs):
             objs.append(math.sqrt(sum(float(np.sum((np.asarray(a) - np.asarray(b)) ** 2)) for a, b in zip(slices, rec))) / n2)
         if ok:
             history_check(ctx, entry, inputs, objs, what="objective recomputed from prefix runs")
+
+
+def run_p2_linestep(ctx, n_runs):
+    """the accept/reject decision of PARAFAC2's line search (C07_linesearch_descent on the implementation): whatever state
+    line_step returns has an objective that is not above the error of the current ALS iterate it was given"""
+    from tensorly.decomposition import _parafac2
+    from tensorly.parafac2_tensor import parafac2_to_slices
+    chk, rng = ctx.chk, ctx.rng
+    entry = "tensorly.decomposition._parafac2._BroThesisLineSearch.line_step"
+    LS = getattr(_parafac2, "_BroThesisLineSearch", None)
+    proj = getattr(_parafac2, "_compute_projections", None)
+    if LS is None or proj is None:
+        chk.notes.append("PARAFAC2 line-search class not found under its anchored name: direct accept/reject predicate skipped")
+        return
+    for it in range(n_runs):
+        r = np_rng(rng)
+        I, J, K, rank = rng.choice([3, 4]), rng.choice([4, 5]), rng.choice([3, 4]), rng.choice([1, 2])
+        nonneg = it % 2 == 1
+        A = r.rand(I, rank) + 0.3
+        Bm = r.rand(rank, rank) + np.eye(rank)
+        Cm = (r.rand(K, rank) + 0.1) if nonneg else r.randn(K, rank)
+        slices = []
+        for i in range(I):
+            P, _ = np.linalg.qr(r.randn(J, rank))
+            S = (P @ Bm) @ np.diag(A[i]) @ Cm.T
+            slices.append(S + 0.1 * np.linalg.norm(S) / math.sqrt(S.size) * r.randn(J, K))
+        norm = math.sqrt(sum(float(np.sum(sl ** 2)) for sl in slices))
+        true = [A, Bm, Cm]
+        # the current ALS iterate and the previous one: depending on `step` the extrapolation lands near the solution (accept)
+        # or far beyond it (reject)
+        last = [f + 0.5 * (r.rand(*f.shape) if nonneg else r.randn(*f.shape)) for f in true]
+        iteration = rng.choice([16, 36, 100])
+        # jump = sqrt(iteration); the jumped point sits at jump*step of the way: < 2/(jump+1) lands closer to the solution than
+        # the ALS iterate, slightly above it lands slightly farther (a sloppy acceptance test would let it through)
+        step = [0.6, 2.05, 1.5, 2.2, 2.5, 4.0][it % 6] / (math.sqrt(iteration) + 1.0)
+        cur = [l + step * (t - l) for l, t in zip(last, true)]
+        weights = np.ones(rank)
+        inputs = dict(shape=[I, J, K], rank=rank, variant="step%.1f" % step, slices=slices, factors=cur, factors_last=last, iteration=iteration, nn=nonneg)
+
+        def objective(factors, projections):
+            rec = parafac2_to_slices((weights, [np.asarray(f) for f in factors], [np.asarray(q) for q in projections]))
+            return math.sqrt(sum(float(np.sum((np.asarray(a) - np.asarray(b)) ** 2)) for a, b in zip(slices, rec))) / norm
+        attempt(ctx, entry)
+
+        def call():
+            projections = proj(slices, cur, "truncated_svd")
+            e0 = objective(cur, projections)
+            ls = LS(norm, "truncated_svd", nn_modes=[0, 2] if nonneg else None)
+            f2, p2, e2 = ls.line_step(iteration, slices, [f.copy() for f in last], weights, [f.copy() for f in cur], projections, e0)
+            return e0, objective(f2, p2), float(e2)
+        out = C.call_impl(call)
+        chk.hist("algorithm", "parafac2 line_step")
+        if out[0] != "ok":
+            raised(ctx, entry, out[1]); continue
+        e0, e_true, e_rep = out[1]
+        ctx.judged[entry] = ctx.judged.get(entry, 0) + 1
+        chk.count(key=(entry, I, J, K, rank, step, iteration, nonneg), nontrivial=True)
+        chk.hist("linestep", "kept ALS iterate" if abs(e_true - e0) <= 1e-12 else "jump accepted")
+        if not (e_true <= e0 + SLACK and e_rep <= e0 + SLACK):
+            chk.finding(entry, inputs, f"line search returned a state with error {e_true!r} (reported {e_rep!r}) above the error {e0!r} of the ALS iterate",
+                        "C07_linesearch_descent", observed=[e0, e_true, e_rep], expected="<= error of the ALS iterate")
 
 
 def run_tr_als(ctx, n_runs):
@@ -781,7 +845,7 @@ def run_regressors(ctx, n_runs):
 
 def PLAN(quick):
     return [(run_parafac, 48 if quick else 400), (run_nn_hals, 18 if quick else 120), (run_hals_nnls, 36 if quick else 300),
-            (run_tucker, 18 if quick else 120), (run_parafac2, 10 if quick else 60), (run_tr_als, 12 if quick else 80),
+            (run_tucker, 18 if quick else 120), (run_parafac2, 10 if quick else 60), (run_p2_linestep, 12 if quick else 80), (run_tr_als, 12 if quick else 80),
             (run_cmtf, 12 if quick else 80), (run_regressors, 12 if quick else 60)]
 
 
@@ -817,8 +881,10 @@ def run(chk):
         chk.broken.append({"what": "correspondence corr:C07 shard not evaluated", "detail": b})
     for entry, n in ctx.raised.items():
         chk.notes.append(f"{entry}: {n} of {ctx.attempts.get(entry, n)} run(s) raised and were skipped")
-        if not ctx.judged.get(entry) or 2 * n > ctx.attempts.get(entry, n):
-            chk.broken.append({"what": f"{entry} raised on most generated (well-formed) problems: its histories could not be judged", "detail": n})
+        other = ctx.raised_other.get(entry, 0)      # exceptions other than singular systems / timeouts
+        if not ctx.judged.get(entry) or (other >= 2 and 4 * other > ctx.attempts.get(entry, n)):
+            chk.broken.append({"what": f"{entry} raised on {n} of {ctx.attempts.get(entry, n)} generated well-formed problems ({other} not a singular system / timeout): "
+                                       "its histories could not be judged", "detail": n})
     for i in sorted(failing):
         kind, descr, payload = ctx.meta[i]
         chk.disagreement(f"corr:C07 {kind} block (Model/Descent.v vs {descr['entry']})", dict(kind=kind, **descr))
